@@ -112,14 +112,20 @@ func validBodies(w *world.World) map[string][]string {
 		// the largest batches the messages take (100 identifiers) are valid content too
 		"noble.orbiter.component.forwarder.v1.MsgPauseCrossChains": {`{"protocol_id":"PROTOCOL_CCTP","counterparty_ids":["0","3"]}`,
 			`{"protocol_id":"PROTOCOL_HYPERLANE","counterparty_ids":["1"]}`, `{"protocol_id":"PROTOCOL_CCTP","counterparty_ids":` + idBatch(300, 100) + `}`,
-			`{"protocol_id":"PROTOCOL_CCTP","counterparty_ids":` + idBatch(300, 99) + `}`},
+			`{"protocol_id":"PROTOCOL_CCTP","counterparty_ids":` + idBatch(300, 99) + `}`,
+			`{"protocol_id":"PROTOCOL_IBC","counterparty_ids":["channel-0","channel-18446744073709551615"]}`, `{"protocol_id":"PROTOCOL_INTERNAL","counterparty_ids":["noble"]}`,
+			`{"protocol_id":"PROTOCOL_HYPERLANE","counterparty_ids":["0","4294967295"]}`},
 		"noble.orbiter.component.forwarder.v1.MsgUnpauseCrossChains": {`{"protocol_id":"PROTOCOL_CCTP","counterparty_ids":["5"]}`,
 			`{"protocol_id":"PROTOCOL_HYPERLANE","counterparty_ids":["7"]}`, `{"protocol_id":"PROTOCOL_CCTP","counterparty_ids":` + idBatch(100, 100) + `}`,
 			`{"protocol_id":"PROTOCOL_CCTP","counterparty_ids":` + idBatch(100, 99) + `}`},
 		"noble.orbiter.component.forwarder.v1.MsgReplaceDepositForBurn": {},
 		"noble.orbiter.component.executor.v1.MsgPauseAction":            {`{"action_id":"ACTION_FEE"}`},
 		"noble.orbiter.component.executor.v1.MsgUnpauseAction":          {`{"action_id":"ACTION_SWAP"}`},
-		"noble.orbiter.component.adapter.v1.MsgUpdateParams":            {`{"params":{"max_passthrough_payload_size":77}}`},
+		// every value of the parameter is valid content, the default 0 (= passthrough payloads
+		// disabled, written out, left out, or with the whole member left out) included; the
+		// prepared state has a non-zero limit in force
+		"noble.orbiter.component.adapter.v1.MsgUpdateParams": {`{"params":{"max_passthrough_payload_size":77}}`, `{"params":{"max_passthrough_payload_size":0}}`,
+			`{"params":{}}`, `{}`, `{"params":{"max_passthrough_payload_size":1}}`, `{"params":{"max_passthrough_payload_size":4294967295}}`},
 	}
 }
 
@@ -155,6 +161,7 @@ func c10State(w *world.World) sdk.Context {
 		{Kind: "pause_cc", Protocol: "PROTOCOL_HYPERLANE", Ids: []string{"7"}},
 		{Kind: "pause_action", Action: "ACTION_SWAP"},
 		{Kind: "pause_cc", Protocol: "PROTOCOL_CCTP", Ids: c10Batch},
+		{Kind: "update_params", MaxPassthrough: 500},
 	} {
 		msg, _ := kit.BuildAdmin(a)
 		w.MustTx(ctx, msg)
